@@ -114,6 +114,7 @@ class Symex:
                  inline_crates=("geo", "geo_types", "geo_verif_roots"), mono=None, opaque_ok=True, budget_s=20.0, concrete_iters=False):
         self.facts = facts
         self.concrete_iters = concrete_iters
+        self.assume_reflexive = False
         self.models = dict(DEFAULT_MODELS)
         if models:
             self.models.update(models)
@@ -825,6 +826,10 @@ def m_cmp(op, flip=False, neg=False):
                 return _ret(st, ("const", (not r) if neg else r))
         if not scalar_like(a) or not scalar_like(b):
             return NotImplemented
+        if ex.assume_reflexive and a == b:
+            # the same value on both sides (no NaN in the property's domain): x == x, x <= x hold, x < x does not
+            r = op in ("eq", "le")
+            return _ret(st, ("const", (not r) if neg else r))
         t = ("cmp", op, a, b)
         return _ret(st, ("un", "Not", t) if neg else t)
     return f
